@@ -4,6 +4,16 @@ import threading
 
 GATES = {}
 STARTED = []
+FAIL = set()      # elements whose (gated) task raises
+
+
+class TaskError(Exception):
+    pass
+
+
+def _maybe_fail(x):
+    if x in FAIL:
+        raise TaskError("task of element %r failed" % (x,))
 
 
 def gate(x):
@@ -16,6 +26,7 @@ def gate(x):
 def gated_x10(x):
     STARTED.append(x)
     gate(x).wait(30)
+    _maybe_fail(x)
     return x * 10
 
 
@@ -41,6 +52,7 @@ def gated_x10_minus(x):
     """x arrives incremented by one: the gate belongs to the original element"""
     STARTED.append(x - 1)
     gate(x - 1).wait(30)
+    _maybe_fail(x - 1)
     return x * 10
 
 
